@@ -5,6 +5,7 @@ import Driver.C03
 import Driver.C06
 import Driver.C07
 import Driver.C29
+import Driver.C30
 import Driver.Pool
 import Driver.C25
 import Driver.C31
@@ -35,6 +36,7 @@ def step (line : String) : String :=
   | "C24" :: ts => stepC24 ts
   | "C25" :: ts => stepC25 ts
   | "C29" :: ts => stepC29 ts
+  | "C30" :: ts => stepC30 ts
   | "C31" :: ts => stepC31 ts
   | "C32" :: ts => stepC32 ts
   | "C33" :: ts => stepC33 ts
